@@ -5,7 +5,9 @@ package main
 
 import (
 	"strings"
+	"sync"
 
+	"github.com/fatedier/frp/pkg/nathole"
 	"verifharness/hx"
 )
 
@@ -38,8 +40,32 @@ func runVisitors(cfg *hx.RunCfg) error {
 	for i := 0; i < nA; i++ {
 		add(managerCase(g, dist))
 	}
+	// (ii): every admitted request keeps its HandleVisitor call alive for NatHoleTimeout seconds, so the histories
+	// run side by side, each on its own controller and with its own generator derived from the seed
+	nathole.NatHoleTimeout = nhTimeout
+	type nhRes struct {
+		c    string
+		f    []map[string]string
+		dist map[string]int
+	}
+	res := make([]nhRes, nB)
+	var wg sync.WaitGroup
 	for i := 0; i < nB; i++ {
-		add(nhCase(g, dist))
+		sub := &gen{hx.NewGen(g.R.Int63())}
+		wg.Add(1)
+		go func(i int, sub *gen) {
+			defer wg.Done()
+			d := map[string]int{}
+			c, f := nhCase(sub, d)
+			res[i] = nhRes{c, f, d}
+		}(i, sub)
+	}
+	wg.Wait()
+	for _, r := range res {
+		for k, v := range r.dist {
+			dist[k] += v
+		}
+		add(r.c, r.f)
 	}
 	nSys := cfg.N - nA - nB
 	if err := systemCases(cfg, g, nSys, dist, add); err != nil {
